@@ -1,7 +1,7 @@
 # memfault-copyrows-after-clear (family exhaustive): asan
 salloc 0 2 2
 salloc 1 2 2
-sins 0 0 1
+sins 0 0 0
 scopy 0 1
 scopyrows 0 1 2 1 0
 sfree 0
